@@ -125,8 +125,10 @@ Qed.
 
 (* 9. The line parsers agree outside the parser-level known classes.  gix sees the line [l] without
       its terminator, git sees [l ++ w] where [w] is the terminator (nothing, LF, CR LF: any blanks).
-      For every line of plain bytes (ASCII without NUL, VT, FF: this excludes the classes nul-byte
-      and unicode-whitespace) whose trimmed form carries none of trailing-text,
+      For every line of plain bytes (any byte but NUL, VT, FF and C2, E1, E2, E3, the lead bytes of
+      the multi-byte Unicode white space: this excludes the classes nul-byte and
+      unicode-whitespace, and also the other characters encoded with those four lead bytes) whose
+      trimmed form carries none of trailing-text,
       email-edge-whitespace, empty-second-email ([line_known], judged on git's view of the line
       like prop() does): a skipped line is skipped by git; an accepted line gives git exactly the
       add_mapping arguments of the gix entry; a line gix rejects is without effect in git (nothing,
@@ -175,26 +177,34 @@ Proof. exact fgets_chunks_lines. Qed.
        Snapshot::from_bytes(text).resolve(name, email) is what `git check-mailmap` computes
        (Spec.g_check_mailmap), provided
        - [text_clean text]: no line over 1022 bytes (class line-over-1022-bytes), every line plain
-         ASCII without NUL, VT, FF (classes nul-byte, unicode-whitespace; also excludes non-ASCII
-         text, see NOTES) and with none of trailing-text, email-edge-whitespace, empty-second-email,
-       - the identity is valid UTF-8 (class non-utf8-identity), and
+         (no NUL, VT, FF, no byte C2, E1, E2, E3: classes nul-byte, unicode-whitespace) and with
+         none of trailing-text, email-edge-whitespace, empty-second-email,
+       - [keys_utf8 text]: the old emails / old names gix parsed are valid UTF-8 (class
+         non-utf8-key-in-mailmap); the identity is valid UTF-8 (class non-utf8-identity), and
        - no old email differs from the looked-up one in case only (class email-case-normalized). *)
 Theorem resolve_text_is_git_except_known :
   forall text name email,
-    text_clean text = true ->
+    text_clean text = true -> keys_utf8 text = true ->
     is_utf8 name = true -> is_utf8 email = true ->
     email_case_exact (parse_ignore_errors text) email ->
     exists s, from_bytes text = Ok s /\ resolve s name email = g_check_mailmap text name email.
 Proof. exact resolve_text_clean. Qed.
 Example resolve_text_example :
   let text := bs "Joe <a@x>" ++ [x0a] ++ bs " <n@x>  J <a@x> " ++ [x0d; x0a] ++ bs "# c" ++ [x0a] ++ bs "just a name" in
-  text_clean text = true
+  text_clean text = true /\ keys_utf8 text = true
   /\ email_case_exact (parse_ignore_errors text) (bs "a@x")
   /\ g_check_mailmap text (bs "j") (bs "a@x") = (bs "j", bs "n@x").
 Proof.
-  cbv zeta. split; [vm_compute; reflexivity|]. split; [|vm_compute; reflexivity].
+  cbv zeta. split; [vm_compute; reflexivity|]. split; [vm_compute; reflexivity|].
+  split; [|vm_compute; reflexivity].
   intros en Hen. vm_compute in Hen. destruct Hen as [<-|[<-|[]]]; intros _; reflexivity.
 Qed.
+(* non-ASCII text is covered: `Ä <é@x>` followed by CR LF *)
+Example resolve_text_example_utf8 :
+  let text := [xc3; x84] ++ bs " <" ++ [xc3; xa9] ++ bs "@x>" ++ [x0d; x0a] in
+  text_clean text = true /\ keys_utf8 text = true
+  /\ g_check_mailmap text (bs "j") ([xc3; xa9] ++ bs "@x") = ([xc3; x84], [xc3; xa9] ++ bs "@x").
+Proof. vm_compute. repeat split. Qed.
 
 (* The full statement of the property, at the level of the mailmap TEXT.  It is false (theorems 8
    and six further parser-level classes, see NOTES.md); what is proved is theorems 5-7 from the
